@@ -198,6 +198,7 @@ def rule_init_complete(ctx, fl):
             'is written by myth_cond_init_body (an object placed in recycled memory must not depend on its previous contents)')
     vi = ctx.view(NATIVE, roots=['myth_cond_init_body', 'myth_cond_wait_body', 'myth_cond_signal_body', 'myth_cond_broadcast_body'], stops=('myth_queue_push', 'myth_queue_pop', 'myth_yield_ex_body', 'hr_gettime', 'fprintf', 'exit') + lib.SPIN_STOPS, flavour=fl)
     n = lib.init_covers(ctx, 'C05.4', vi, 'myth_cond_init_body', ['myth_cond_wait_body', 'myth_cond_signal_body', 'myth_cond_broadcast_body'], 'condition variable')
+    lib.sleep_container_init_complete(ctx, 'C05.4', fl, 'queue')
     ctx.ob('C05.4', 'fields read by the operations enumerated', n >= 1, 'read set of the operations', loc='src/myth_sync_func.h', detail=str(n))
     ctx.floor('C05.4', 3)
 
